@@ -5,9 +5,6 @@ import QExPy.Model.Downstream
 namespace QExPy.Drv
 open Lean QExPy
 
-def getFBList (j : Json) : R (List FB) := do
-  pure ((← getFList j).map FB.exact)
-
 def optFBList (j : Json) (k : String) : R (Option (List FB)) :=
   match j.getObjVal? k with
   | .ok Json.null => pure none
